@@ -351,6 +351,63 @@ def r15_3(ctx: Ctx, rep: Report) -> None:
     r03_3(ctx, rep, pairs=SIBLINGS[2:], rid="R15.3")
 
 
+def ungroup_forgets_grouping(ctx: Ctx, rep: Report, rid: str = "R15.9") -> None:
+    """Ungrouping is lasting: Acl.ungroup clears the grouping prefix before (or when) it stores the flat list - the
+    items setter re-groups whenever a prefix is set, so a kept prefix makes the next assignment or copy() group again."""
+    rep.rule(rid)
+    f = ctx.func("Acl.ungroup")
+    cfg = ctx.cfg(f)
+    rep.instance()
+
+    def clears(n: Node) -> bool:
+        if n.kind == "stmt" and isinstance(n.ast, ast.Assign):
+            return any(isinstance(t, ast.Attribute) and src(t.value) == "self" and t.attr in ("_group_by", "group_by") for t in n.ast.targets) and isinstance(n.ast.value, ast.Constant) and not n.ast.value.value
+        return False
+
+    if cfg.all_paths_pass(cfg.entry, cfg.exit, clears, labels_avoid=("exc",)):
+        rep.ok("Acl.ungroup", "clears the grouping prefix on every path", where=where(f))
+    else:
+        rep.violation("Acl.ungroup", "self._group_by", "the grouping prefix survives ungroup(): the ACL looks flat, but the next `acl.items = ...` or copy() silently groups it again", where(f), inp="acl.ungroup(); acl.items = list(reversed(acl.items)); acl.sort()")
+    rep.instance()
+    st = [n for n in own_nodes(f.node) if isinstance(n, ast.Assign) and any(isinstance(t, ast.Attribute) and src(t.value) == "self" and t.attr in ("items", "_items") for t in n.targets)]
+    if st and "_ungroup" in src(st[-1].value):
+        rep.ok(f"Acl.ungroup: {snippet(st[-1], 60)}", "stores the flattened list", where=where(f, st[-1]))
+    else:
+        rep.violation("Acl.ungroup", "flat list", "the flattened item list is not stored", where(f))
+
+
+def list_api_forwarding(ctx: Ctx, rep: Report, rid: str = "R15.10") -> None:
+    """The list-like methods of Group hand their arguments to the list method of the same name unchanged
+    (`pop(0)` must pop index 0, not `0 or -1`)."""
+    rep.rule(rid)
+    group = ctx.cls("Group")
+    n = 0
+    for name in ("pop", "insert", "append", "extend", "sort", "reverse", "remove", "index", "count"):
+        m = group.methods.get(name)
+        if m is None:
+            continue
+        calls = [c for c in own_nodes(m.node) if isinstance(c, ast.Call) and isinstance(c.func, ast.Attribute) and c.func.attr == name and src(c.func.value) in ("self.items", "self._items")]
+        if not calls:
+            continue
+        n += 1
+        rep.instance()
+        c = calls[0]
+        a = m.node.args
+        names = {x.arg for x in a.args[1:] + a.kwonlyargs} | ({a.vararg.arg} if a.vararg else set()) | ({a.kwarg.arg} if a.kwarg else set())
+        bad = None
+        for e in list(c.args) + [k.value for k in c.keywords]:
+            inner = e.value if isinstance(e, ast.Starred) else e
+            if isinstance(inner, ast.Call) and isinstance(inner.func, ast.Name) and inner.func.id in ("list", "tuple") and len(inner.args) == 1 and not inner.keywords:
+                inner = inner.args[0]  # an element-for-element copy of the argument
+            if not (isinstance(inner, ast.Name) and inner.id in names):
+                bad = e
+        if bad is not None:
+            rep.violation(m.qualname, snippet(c), f"the argument `{snippet(bad)}` is not the caller's argument itself: the list operation acts on another position/value than the one asked for", where(m, c), inp="acl.pop(0) removes the last rule")
+        else:
+            rep.ok(f"{m.qualname}: {snippet(c, 50)}", "arguments forwarded unchanged", nontrivial=False, where=where(m, c))
+    rep.floor(3, "list-like methods of Group that delegate to the item list")
+
+
 def items_setter_store(ctx: Ctx, rep: Report, rid: str = "R15.8") -> None:
     """A container's items setter stores the list it built - one element per supplied item, in the supplied order - and
     does not push the elements through the list-like helper methods of Group afterwards (update/add skip duplicates,
@@ -581,5 +638,7 @@ def run(ctx: Ctx, rep: Report, tier: str) -> None:
     r15_3(ctx, rep)
     lt_field_agreement(ctx, rep)
     items_setter_store(ctx, rep)
+    ungroup_forgets_grouping(ctx, rep)
+    list_api_forwarding(ctx, rep)
     r15_4(ctx, rep)
     r15_5(ctx, rep)
